@@ -1,4 +1,5 @@
 import BpModel.Proofs.Names
+import BpModel.Proofs.Lex
 import BpModel.Model.Cli
 import BpModel.Model.Lint
 /-!
@@ -51,5 +52,19 @@ theorem C20_check_exit (w : Cli.World) (o : Cli.Opts) (hc : o.check = true) (hq 
   · by_cases hw : w.warnings > 0
     · simp [he, hw]
     · simp [he, hw]
+
+/-! ### lines: what the lexer model attaches to a token is the line it stands on -/
+
+/-- every token carries 1 + the number of NEWLINE tokens before it -/
+theorem C20_token_lines (text : List Char) : Lex.LinesOk 1 (Lex.lex text).1 :=
+  Lex.lexAll_lines text.length false 1 text
+
+/-- ... and NEWLINE tokens are exactly the line-feed characters: a comment stops before its line feed, a string
+cannot contain one, no other token does -/
+theorem C20_newlines_are_linefeeds (text : List Char) (h : (Lex.lex text).2 = none) :
+    Lex.nlToks (Lex.lex text).1 = text.count '\n' :=
+  Lex.lexAll_count text.length false 1 text (Nat.le_refl _) h
+
+example : ((Lex.lex "proto a // c\nmessage M { }\n".toList).1.map (·.line)) = [1, 1, 1, 1, 2, 2, 2, 2, 2] := by decide +kernel
 
 end Bp.C20
